@@ -18,7 +18,8 @@ func (p *Core) judgeRefusedTransfer(ci int, r *sim.TxResult, rt *Route, d int, x
 	reason := ""
 	bal := p.tok.bank[ci].get(x.Sender, x.SrcDenom)
 	switch {
-	case x.Granter >= 0:
+	case x.Granter >= 0 || p.Opt.WGrant > 0:
+		// worlds with authz grants: a grantee's exec in the same block may have spent the coins first
 		reason = "authz"
 	case x.Sentinel:
 		reason = "sentinel"
